@@ -13,6 +13,10 @@ __thread myth_freelist_t *g_myth_freelist;
 myth_freelist_t **g_myth_freelist;
 #endif
 
+#ifdef MYTH_VERIF
+void (*g_myth_verif_hook)(int pt, const void * a, const void * b, long v) = 0;
+#endif
+
 //Global variabled declaration
 
 //uint64_t g_mmap_total=0,g_mmap_count=0;
